@@ -55,3 +55,114 @@ def analysed(ctx, fn):
         r = (fa, fa.observe())
         cache[fn] = r
     return r
+
+
+# ---------------------------------------------------------------- CacheView
+class NotFinite(Exception):
+    pass
+
+
+def finite_eval(e, env):
+    """Evaluate a boolean/arithmetic expression over a finite valuation
+    {normalised sub-expression: value}; anything else is NotFinite."""
+    import ast as _ast
+    from ..loader import norm as _norm
+    k = _norm(e)
+    if k in env:
+        return env[k]
+    if isinstance(e, _ast.Constant):
+        return e.value
+    if isinstance(e, _ast.BoolOp):
+        if isinstance(e.op, _ast.And):
+            v = True
+            for x in e.values:
+                v = finite_eval(x, env)
+                if not v:
+                    return v
+            return v
+        v = False
+        for x in e.values:
+            v = finite_eval(x, env)
+            if v:
+                return v
+        return v
+    if isinstance(e, _ast.UnaryOp) and isinstance(e.op, _ast.Not):
+        return not finite_eval(e.operand, env)
+    if isinstance(e, _ast.Compare):
+        left = finite_eval(e.left, env)
+        for op, c in zip(e.ops, e.comparators):
+            right = finite_eval(c, env)
+            try:
+                r = {_ast.Lt: lambda a, b: a < b, _ast.LtE: lambda a, b: a <= b, _ast.Gt: lambda a, b: a > b,
+                     _ast.GtE: lambda a, b: a >= b, _ast.Eq: lambda a, b: a == b, _ast.NotEq: lambda a, b: a != b,
+                     _ast.Is: lambda a, b: a is b, _ast.IsNot: lambda a, b: a is not b}[type(op)](left, right)
+            except (KeyError, TypeError):
+                raise NotFinite(_norm(e))
+            if not r:
+                return False
+            left = right
+        return True
+    if isinstance(e, _ast.BinOp) and isinstance(e.op, (_ast.Add, _ast.Sub)):
+        a, b = finite_eval(e.left, env), finite_eval(e.right, env)
+        try:
+            return a + b if isinstance(e.op, _ast.Add) else a - b
+        except TypeError:
+            raise NotFinite(_norm(e))
+    raise NotFinite(k)
+
+
+def cacheview_predicates(ctx):
+    """(fn, room conjuncts, completeness test) of CacheView.__iter__: the
+    condition under which a served row is still memoised (without the
+    high-water-mark conjunct) and the condition under which a finished pass
+    declares the memo complete."""
+    import ast as _ast
+    from ..loader import norm as _norm, own_nodes as _own, AnalysisError as _AE
+    fn = ctx.project.need_fn('petl.util.materialise:CacheView.__iter__')
+    room = complete = None
+    for n in _own(fn.node):
+        if isinstance(n, _ast.If):
+            body_txt = [_norm(s) for s in n.body]
+            conj = n.test.values if (isinstance(n.test, _ast.BoolOp) and isinstance(n.test.op, _ast.And)) else [n.test]
+            if any(t.startswith('self.cache.append(') for t in body_txt):
+                room = [c for c in conj if not _is_hwm(c)]
+            if any(t == 'self.cachecomplete = True' for t in body_txt):
+                complete = n.test
+    if room is None or complete is None:
+        raise _AE('anchor vanished: append / completeness tests of CacheView.__iter__')
+    return fn, room, complete
+
+
+def _is_hwm(c):
+    import ast as _ast
+    from ..loader import norm as _norm
+    if not (isinstance(c, _ast.Compare) and len(c.ops) == 1 and isinstance(c.ops[0], _ast.Eq)):
+        return False
+    sides = (_norm(c.left), _norm(c.comparators[0]))
+    return 'len(self.cache)' in sides and any(s != 'len(self.cache)' and not s.startswith('self.') for s in sides)
+
+
+def cacheview_flag_truthful(ctx):
+    """Decide `complete => room` pointwise over a finite grid of (n, len(cache)):
+    the memo may be declared complete only while there was still room for the
+    row that was not there, i.e. nothing was dropped.  Returns (fn, None) or
+    (fn, counterexample text)."""
+    from ..loader import norm as _norm
+    fn, room, complete = cacheview_predicates(ctx)
+    try:
+        for n in (None, 0, 1, 2, 3):
+            for k in range(0, 5):
+                if n and k > n:
+                    continue            # the append guard keeps len(cache) <= n
+                env = {'self.n': n, 'len(self.cache)': k}
+                r = all(finite_eval(c, env) for c in room)
+                c = bool(finite_eval(complete, env))
+                if c and not r:
+                    return fn, ('with n=%r and %d memoised rows the memo is declared complete (`%s`) although further '
+                                'rows are no longer memoised (`%s` is false)' % (n, k, _norm(complete),
+                                                                              ' and '.join(_norm(x) for x in room)))
+    except NotFinite as e:
+        a = ' and '.join(_norm(x) for x in room)
+        b = _norm(complete)
+        return fn, (None if a == b else 'cannot evaluate `%s`; the two tests differ textually: `%s` vs `%s`' % (e, b, a))
+    return fn, None
